@@ -136,7 +136,15 @@ def check_case(case) -> Outcome:
     stateful = [f for t in case["terms"] for f in t if f in STATEFUL]
     for f in sorted({f.split("(")[0] for f in stateful}):
         out.label("tf:" + f)
-    mm = model_matrix(s, train, output=output, ensure_full_rank=efr, cluster_by="numerical_factors" if case.get("cluster") else "none")
+    try:
+        mm = model_matrix(s, train, output=output, ensure_full_rank=efr, cluster_by="numerical_factors" if case.get("cluster") else "none")
+    except Exception as e:
+        if "no data points are available for knot selection" in str(e):
+            # explicit spline bounds that exclude every training value: the fit is rightly refused
+            out.rejected = True
+            out.label("rejected:no-training-data-within-bounds")
+            return out
+        raise
     spec = mm.model_spec
     if case.get("cluster"):
         out.label("cluster_by")
